@@ -116,7 +116,11 @@ def build_strings(ctx, tier, seed):
                 "Tlm{X_1=[(RC)]}", "Tlm{X_1=short,X_2=open}", "Tlm{X_1=zero,X_2=inf}", "Tlm{X_1=R,X_1=C}", "Tlm{L=1,L=2}",
                 "R{R=1,}", "R{R=1,R=2}", "Q{Y=1,n=0.5,}", "R{R=5/10%/200%}", "R{R=5//200%}", "R{R=5/inf/inf}", "R{R=5/x}",
                 "C{C=1e5/1e4/1e6}", "C{C=1e5/1e4}", "Tlm{X_1=R", "Tlm{X_1=RC", "[R(RC)Tlm{X_1=RC", "Tlm{X_1=R{R=1}", "Tlm{X_1=[R", "Tlm{X_1=short",
-                "Tlm{X_1=", "Tlm{", "Tlm{X_1", "Tlm{X_1=R,", "Tlm{X_1=R:", "Tlm{X_1=R}", "Tlm{X_1=R,X_2=C", "Tlm{L=1", "Tlm{L=1,X_1=R", "R{R=1F/0/2}", "R{R=1f}", "R{R=1e}", "R{R=1.e5}", "R{R=1e+}", "R 1", "1", "R{R=1:a{b}c}"]
+                "Tlm{X_1=", "Tlm{", "Tlm{X_1", "Tlm{X_1=R,", "Tlm{X_1=R:", "Tlm{X_1=R}", "Tlm{X_1=R,X_2=C", "Tlm{L=1", "Tlm{L=1,X_1=R", "R{R=1F/0/2}", "R{R=1f}", "R{R=1e}", "R{R=1.e5}", "R{R=1e+}", "R 1", "1", "R{R=1:a{b}c}",
+                # minimised from the thorough tier (model corrections): leading zeros in an exponent; number tokens beyond the double
+                # range (read as inf) as value and as percentage
+                "R{R=1.00e0000000000E-2}", "R{R=5/1.0e0000000000}", "R{R=1e0000000001}", "R{R=1e999/25%/150%}", "Q{n=0.75e709/10%/110%}",
+                "R{R=5/1e999%}", "R{R=-1e999/25%}", "R{R=1e999/0%}", "R{R=5//1e999%}"]
     return strings, n_exh
 
 
@@ -194,7 +198,7 @@ def run(rep, tier, seed, tr_errors):
         for i in sorted(set(mism))[:4]:
             s, o = by[i]
             rep.violation("correspondence_%d" % i, {"kind": "broken-obligation", "obligation": "correspondence:Token.v+Parser.v-vs-parse_cdc",
-                                                   "input": {"string": s[:300], "observed": ("ok: " + o[1].to_string(3)) if o[0] == "ok" else o[1]}}, no_input=True)
+                                                   "input": {"string": s, "observed": ("ok: " + o[1].to_string(3)) if o[0] == "ok" else o[1]}}, no_input=True)
         for si, raw in broken[:2]:
             rep.violation("shard_%d" % si, {"kind": "broken-obligation", "obligation": "cases shard did not evaluate", "log": raw}, no_input=True)
     if not thm_ok and not rep.violations:
